@@ -94,12 +94,12 @@ pub open spec fn n_live(rows: Seq<Row>, c: usize, bm: Option<&[bool]>, n: int) -
     if n <= 0 { 0 } else { n_live(rows, c, bm, n - 1) + (if live(rows, c, bm, n - 1) { 1int } else { 0int }) }
 }
 pub open spec fn numeric(v: SqlValue) -> bool {
-    v is Integer || v is Bigint || v is Smallint || v is Float || v is Double || v is Numeric
+    v is Integer || v is Bigint || v is Smallint || v is Float || v is Real || v is Double || v is Numeric
 }
 pub open spec fn to_f(v: SqlValue) -> f64 {
     match v {
         SqlValue::Integer(x) => f_of_i64(x), SqlValue::Bigint(x) => f_of_i64(x), SqlValue::Smallint(x) => f_of_i16(x),
-        SqlValue::Float(x) => f_of_f32(x), SqlValue::Double(x) => x, SqlValue::Numeric(x) => x, _ => f_zero(),
+        SqlValue::Float(x) => f_of_f32(x), SqlValue::Real(x) => f_of_f32(x), SqlValue::Double(x) => x, SqlValue::Numeric(x) => x, _ => f_zero(),
     }
 }
 /// SUM over the live cells of the first n rows, in row order (f_add is the machine addition, uninterpreted)
@@ -110,13 +110,19 @@ pub open spec fn f_sum(rows: Seq<Row>, c: usize, bm: Option<&[bool]>, n: int) ->
 pub open spec fn all_numeric(rows: Seq<Row>, c: usize, bm: Option<&[bool]>, n: int) -> bool {
     forall|i: int| 0 <= i < n && live(rows, c, bm, i) ==> numeric(#[trigger] cell(rows, c, i).unwrap())
 }
+/// what the float SIMD driver accepts: REAL cells are not among them (can_use_simd_for_column does not choose the driver for a REAL column)
+pub open spec fn fnumeric(v: SqlValue) -> bool { numeric(v) && !(v is Real) }
+pub open spec fn all_fnumeric(rows: Seq<Row>, c: usize, bm: Option<&[bool]>, n: int) -> bool {
+    forall|i: int| 0 <= i < n && live(rows, c, bm, i) ==> fnumeric(#[trigger] cell(rows, c, i).unwrap())
+}
 /// the filter bitmap covers the table (create_filter_bitmap(rows.len(), ..) builds it that way)
 pub open spec fn bm_ok(rows: Seq<Row>, bm: Option<&[bool]>) -> bool {
     bm is Some ==> bm.unwrap()@.len() == rows.len()
 }
 pub uninterp spec fn f32_lt(a: f32, b: f32) -> bool;     // a.partial_cmp(b) == Some(Less) (machine float comparison, uninterpreted)
 pub uninterp spec fn f64_lt(a: f64, b: f64) -> bool;
-/// compare_for_min_max(a, b), "a < b": same-variant numeric comparison; every other pair compares as not-less (see TRUSTED)
+/// "a < b" for MIN / MAX: numeric comparison within a numeric variant, the row path's comparator for every other pair - a columnar MIN / MAX that keeps the FIRST
+/// value of a VARCHAR / DATE column (every pair "not less") does NOT satisfy this (defect repaired by fix 20eb4028)
 pub open spec fn lt_spec(a: SqlValue, b: SqlValue) -> bool {
     match (a, b) {
         (SqlValue::Integer(x), SqlValue::Integer(y)) => x < y,
@@ -125,9 +131,13 @@ pub open spec fn lt_spec(a: SqlValue, b: SqlValue) -> bool {
         (SqlValue::Float(x), SqlValue::Float(y)) => f32_lt(x, y),
         (SqlValue::Double(x), SqlValue::Double(y)) => f64_lt(x, y),
         (SqlValue::Numeric(x), SqlValue::Numeric(y)) => f64_lt(x, y),
-        _ => false,
+        // every other pair (strings, dates, booleans, REAL, mixed variants): what the ROW path's MIN / MAX use - compare_sql_values says Less
+        _ => row_lt(a, b),
     }
 }
+/// select::grouping::compare_sql_values(a, b) == Less (the comparator of the row-path MIN / MAX accumulators and of ORDER BY: units S-cmpsort / T-laws)
+pub uninterp spec fn row_lt(a: SqlValue, b: SqlValue) -> bool;
+#[verifier::external_body] fn compare_sql_values(a: &SqlValue, b: &SqlValue) -> (r: Ordering) ensures (r == Ordering::Less) == row_lt(*a, *b) { unimplemented!() }
 #[verifier::external_body] fn i64_cmp(a: i64, b: i64) -> (r: Ordering) ensures r == (if a < b { Ordering::Less } else if a == b { Ordering::Equal } else { Ordering::Greater }) { unimplemented!() }
 #[verifier::external_body] fn i16_cmp(a: i16, b: i16) -> (r: Ordering) ensures r == (if a < b { Ordering::Less } else if a == b { Ordering::Equal } else { Ordering::Greater }) { unimplemented!() }
 #[verifier::external_body] fn f32_cmp(a: f32, b: f32) -> (r: Ordering) ensures (r == Ordering::Less) == f32_lt(a, b) { unimplemented!() }
@@ -674,7 +684,7 @@ _F64_INV = """
             0 <= count == fvals(rows, c, bm, en__ as int).len(), count <= en__,
             batch@.len() < 1024, batch@.len() <= count,
             batch@ =~= fvals(rows, c, bm, en__ as int).subrange(count - batch@.len(), count as int),
-            all_numeric(rows, c, bm, en__ as int),
+            all_fnumeric(rows, c, bm, en__ as int),
             op == AggregateOp::Min ==> min == fold_fmin(fvals(rows, c, bm, en__ as int).subrange(0, count - batch@.len()), f_inf()),
             op == AggregateOp::Max ==> max == fold_fmax(fvals(rows, c, bm, en__ as int).subrange(0, count - batch@.len()), f_neg_inf()),
 """
@@ -714,7 +724,7 @@ _F64_AFTER_LOOP = """
 
 def _f64_arm(m):
     """`SqlValue::T(v) => *v as f64,` -> conversion stub of the payload type"""
-    return 'SqlValue::%s(v) => %s,' % (m.group(1), {'Float': 'f64_of_f32(*v)', 'Integer': 'f64_of_i64(*v)', 'Bigint': 'f64_of_i64(*v)', 'Smallint': 'f64_of_i16(*v)'}[m.group(1)])
+    return 'SqlValue::%s(v) => %s,' % (m.group(1), {'Float': 'f64_of_f32(*v)', 'Real': 'f64_of_f32(*v)', 'Integer': 'f64_of_i64(*v)', 'Bigint': 'f64_of_i64(*v)', 'Smallint': 'f64_of_i16(*v)'}[m.group(1)])
 
 
 _EX_INV = """
@@ -728,7 +738,7 @@ _EX_INV = """
 def _sum_arm_owned(m):
     """`SqlValue::T(v) => sum += <v as f64 | v>,` with v bound BY VALUE -> stub conversion of the payload type"""
     ty, expr = m.group(1), m.group(2).strip()
-    conv = {'v as f64': {'Integer': 'f64_of_i64(v)', 'Bigint': 'f64_of_i64(v)', 'Smallint': 'f64_of_i16(v)', 'Float': 'f64_of_f32(v)'}.get(ty), 'v': 'v'}.get(expr)
+    conv = {'v as f64': {'Integer': 'f64_of_i64(v)', 'Bigint': 'f64_of_i64(v)', 'Smallint': 'f64_of_i16(v)', 'Float': 'f64_of_f32(v)', 'Real': 'f64_of_f32(v)'}.get(ty), 'v': 'v'}.get(expr)
     if conv is None:
         return m.group(0)
     return 'SqlValue::%s(v) => sum = fadd(sum, %s),' % (ty, conv)
@@ -737,7 +747,7 @@ def _sum_arm_owned(m):
 def _sum_arm(m):
     """`SqlValue::T(v) => sum += <v as f64>,` -> `SqlValue::T(v) => sum = fadd(sum, <conversion stub>),` (f64 `+=` and `as f64` are not interpreted)"""
     ty, expr = m.group(1), m.group(2).strip()
-    conv = {'*v as f64': {'Integer': 'f64_of_i64(*v)', 'Bigint': 'f64_of_i64(*v)', 'Smallint': 'f64_of_i16(*v)', 'Float': 'f64_of_f32(*v)'}.get(ty), 'v': '*v'}.get(expr)
+    conv = {'*v as f64': {'Integer': 'f64_of_i64(*v)', 'Bigint': 'f64_of_i64(*v)', 'Smallint': 'f64_of_i16(*v)', 'Float': 'f64_of_f32(*v)', 'Real': 'f64_of_f32(*v)'}.get(ty), 'v': '*v'}.get(expr)
     if conv is None:
         return m.group(0)
     return 'SqlValue::%s(v) => sum = fadd(sum, %s),' % (ty, conv)
@@ -770,7 +780,7 @@ ITEMS = {
         rewrites=[_FOR_ENUM, _BM, _FMT,
                   ('re', r'let mut sum = 0\.0;', 'let mut sum = fzero();', 1),
                   ('re', r'let mut count = 0;', 'let mut count = 0i64;', 1),
-                  ('refn', r'SqlValue::(\w+)\(v\) => sum \+= ([^,]+),', _sum_arm, 6)],
+                  ('refn', r'SqlValue::(\w+)\(v\) => sum \+= ([^,]+),', _sum_arm, None)],
         loops={0: _IT_INV + '''
             0 <= count == n_live(scan.rows@, column_idx, filter_bitmap, en__ as int), count <= en__,
             sum == f_sum(scan.rows@, column_idx, filter_bitmap, en__ as int),
@@ -820,7 +830,7 @@ ITEMS = {
 '''),
     'compare_for_min_max': dict(
         file=_A, path='fn compare_for_min_max', ret='r',
-        rewrites=[('re', r'use std::cmp::Ordering;', '', 1),
+        rewrites=[('re', r'use std::cmp::Ordering;', '', 1), ('re', r'crate::select::grouping::compare_sql_values', 'compare_sql_values', None),
                   ('re', r'\(SqlValue::(Integer|Bigint)\(a\), SqlValue::\1\(b\)\) => a\.cmp\(b\)', r'(SqlValue::\1(a), SqlValue::\1(b)) => i64_cmp(*a, *b)', 2),
                   ('re', r'\(SqlValue::Smallint\(a\), SqlValue::Smallint\(b\)\) => a\.cmp\(b\)', r'(SqlValue::Smallint(a), SqlValue::Smallint(b)) => i16_cmp(*a, *b)', 1),
                   ('re', r'\(SqlValue::Float\(a\), SqlValue::Float\(b\)\) => \{\s*a\.partial_cmp\(b\)\.unwrap_or\(Ordering::Equal\)\s*\}', r'(SqlValue::Float(a), SqlValue::Float(b)) => { f32_cmp(*a, *b) }', 1),
@@ -876,8 +886,8 @@ ITEMS = {
         contract="""
     requires bm_ok(scan.rows@, filter_bitmap), scan.rows@.len() < i64::MAX
     ensures
-        // an error iff some selected non-NULL value is not numeric
-        r is Ok <==> all_numeric(scan.rows@, column_idx, filter_bitmap, scan.rows@.len() as int),
+        // an error iff some selected non-NULL value is not one of the numeric variants this driver handles
+        r is Ok <==> all_fnumeric(scan.rows@, column_idx, filter_bitmap, scan.rows@.len() as int),
         r matches Ok(v) ==> ({
             let n = scan.rows@.len() as int;
             let vals = fvals(scan.rows@, column_idx, filter_bitmap, n);
@@ -899,7 +909,7 @@ ITEMS = {
                   ('re', r'bitmap\.get\(row_idx\)\.copied\(\)\.unwrap_or\(false\)', 'bm_get(bitmap, row_idx)', 3),
                   ('re', r'let mut sum = 0\.0;', 'let mut sum = fzero();', 1),
                   ('re', r'let mut count = 0;', 'let mut count = 0i64;', 2),
-                  ('refn', r'SqlValue::(\w+)\(v\) => sum \+= ([^,]+),', _sum_arm_owned, 6),
+                  ('refn', r'SqlValue::(\w+)\(v\) => sum \+= ([^,]+),', _sum_arm_owned, None),
                   ('re', r'bitmap\.iter\(\)\.filter\(\|&&pass\| pass\)\.count\(\)', 'count_true(bitmap)', None),
                   ('re', r'sum / count as f64', 'fdiv(sum, count.conv())', 1)],
         loops={0: _EX_INV + """
@@ -1036,7 +1046,7 @@ OBLIGATIONS = {
     'compute_count': ['post:count_star_is_number_of_selected_rows_never_null'],
     'count_non_null': ['post:number_of_selected_non_null_values', 'safety:no_overflow'],
     'compute_avg': ['post:sum_divided_by_number_of_non_null_values__null_iff_none'],
-    'compare_for_min_max': ['post:strictly_less_on_same_variant_numerics_else_false'],
+    'compare_for_min_max': ['post:numeric_order_within_a_variant__the_row_path_comparator_for_every_other_pair'],
     'compute_min': ['post:fold_of_strictly_smaller_over_selected_non_null_values__null_iff_none', 'proof:loop_invariant'],
     'compute_max': ['post:fold_of_strictly_larger_over_selected_non_null_values__null_iff_none', 'proof:loop_invariant'],
     'lemma_fold_none_iff_no_live': ['post:fold_is_none_iff_no_live_value'],
@@ -1066,7 +1076,7 @@ TRUSTED = [
     'f_minmax_assoc (ASSUMED): f64::min / f64::max are associative (IEEE minNum / maxNum, up to the sign of zero and NaN payloads); finf / fneginf / f64_min / f64_max: f64::INFINITY, NEG_INFINITY, f64::min, f64::max as uninterpreted functions',
     'SUM / AVG on the float driver: only "is a Double, NULL iff no value" is stated (batched float addition is not associative; no value-level spec)',
     'external_body i64_min / i64_max: std i64::min / i64::max; i64_cmp / i16_cmp: Ord::cmp on integers; f32_cmp / f64_cmp: partial_cmp(..).unwrap_or(Equal) on floats, only "is Less" is used (uninterpreted f32_lt / f64_lt)',
-    'compare_for_min_max answers "not less" for every pair that is not two numerics of the same variant (strings, dates, mixed variants): MIN / MAX over such columns keep the FIRST value - stated as is (lt_spec), not judged',
+    'lt_spec: MIN / MAX compare numerically within a numeric variant and with the row path comparator (external_body compare_sql_values, uninterpreted row_lt) otherwise; the earlier version of this unit stated the code as it was (every other pair "not less": first value kept) WITHOUT judging it - a spec read off the code, which hid the defect repaired by fix 20eb4028',
     'external_body eval_simple_expr: the per-row value of the argument expression of SUM(a*b) / COUNT(col) / .., an uninterpreted DETERMINISTIC function of (expression, row, schema) (its ColumnRef / Literal arms: unit A-plan; arithmetic: OperatorRegistry, unit E-ops); Expression / CombinedSchema / ColumnPredicate opaque; schema_or_err: Option::ok_or_else; opt_slice: Option<Vec<bool>>::as_deref; one_row: vec![row]; vec_repeat: vec![x; n]; Row::new',
     'external_body create_filter_bitmap_rows: create_filter_bitmap called with the closure |r, c| rows.get(r).and_then(|row| row.get(c)), by the length part of its contract (proved on the real function in unit A-filter) and an uninterpreted content',
     'R10 rewrite: for (i, x) in it.enumerate() desugared to its definition (loop / next / break with a usize counter)',
